@@ -17,6 +17,28 @@ class AnalysisError(Exception):
     """The analysis itself cannot run (vanished anchor, parse error, ...)."""
 
 
+class PrivateAnchorMissing(AnalysisError):
+    """A private helper (leading underscore) that a rule looks at is gone - renamed, inlined or split.  Private names are
+    not part of the interface the properties anchor: the rules that needed it report UNDECIDED instead of failing the run."""
+
+    def __init__(self, what):
+        super().__init__(f'private helper not found: {what}')
+        self.what = what
+
+
+class MethodTable(dict):
+    """methods of a class: a missing private name raises PrivateAnchorMissing instead of KeyError."""
+
+    def __init__(self, owner, *a):
+        super().__init__(*a)
+        self.owner = owner
+
+    def __missing__(self, key):
+        if isinstance(key, str) and key.startswith('_') and not key.startswith('__'):
+            raise PrivateAnchorMissing(f'{self.owner}.{key}')
+        raise KeyError(key)
+
+
 class Module:
     def __init__(self, name, relpath, source, is_pkg):
         self.name = name
@@ -256,8 +278,15 @@ class ClassInfo:
         self.name = node.name
         self.qualname = f'{module.name}.{node.name}'
         self.base_names = []  # dotted
-        self.methods = {}
+        self.methods = MethodTable(self.qualname)
         self.attrs = {}  # class-level attribute -> value expr
+
+    def need(self, name):
+        """lookup() of a private hook of the class; a missing one is a PrivateAnchorMissing (rule group -> UNDECIDED)."""
+        m = self.lookup(name)
+        if m is None:
+            raise PrivateAnchorMissing(f'{self.qualname}.{name}')
+        return m
 
     def bases(self):
         return [self.prog.classes[b] for b in self.base_names if b in self.prog.classes]
@@ -593,6 +622,8 @@ class Program:
         c = self.cls(clsq)
         fn = c.lookup(name) if inherited else c.methods.get(name)
         if fn is None:
+            if name.startswith('_') and not name.startswith('__'):
+                raise PrivateAnchorMissing(f'{clsq}.{name}')
             raise AnalysisError(f'anchor vanished: method {clsq}.{name}')
         return fn
 
